@@ -360,4 +360,48 @@ Proof.
   destruct (range_exact T WF n name v w lo hi w items HI HO EC) as (_ & Hlh & Hhi & Hiff). apply Hiff; lia.
 Qed.
 
+(* ------------------------------------------------------------------ get_or_create *)
+Definition order_kept (h : id) (n : node) (v : N) (w' : world) : Prop :=
+  exists n' items', w_nodes w' h = Some n' /\ n_type n' = n_type n /\
+    items_of w' (n_content n') = Some items' /\ Ordered T (n_type n) v items'.
+
+Theorem get_or_create_order_inv h n v name w c w' items :
+  w_nodes w h = Some n -> w_nodes w (w_next w) = None -> min_version LATEST h w = Val (OK v, w) ->
+  items_of w (n_content n) = Some items -> Ordered T (n_type n) v items ->
+  e_get_or_create_sub_element T LATEST h name w = Val (OK c, w') ->
+  order_kept h n v w'.
+Proof.
+  intros Hn Hf Hv HI HO H. unfold e_get_or_create_sub_element in H.
+  unfold wbind at 1 in H. rewrite Hv in H.
+  unfold wbind at 1 in H. destruct (get_sub_element h name w) as [[[s|er] w1]| |] eqn:EG; try discriminate.
+  pose proof (ro_get_sub_element h name _ _ _ EG) as ->.
+  destruct s as [c0|].
+  - apply wret_inv in H as [_ ->]. exists n, items. auto.
+  - assert (H2 : e_create_sub_element T LATEST h name w = Val (OK c, w')).
+    { unfold e_create_sub_element, wbind. rewrite Hv. exact H. }
+    destruct (create_order_inv T LATEST WF h n v name w c w' items Hn Hf Hv HI HO H2) as (n' & items' & A & B & C & D).
+    exists n', items'. auto.
+Qed.
+
+Theorem get_or_create_named_order_inv h n m v name item w c w' items :
+  w_nodes w h = Some n -> w_nodes w (w_next w) = None -> w_nodes w (w_next w + 1) = None ->
+  model_of h w = Val (OK m, w) -> min_version LATEST h w = Val (OK v, w) ->
+  items_of w (n_content n) = Some items -> Ordered T (n_type n) v items ->
+  e_get_or_create_named_sub_element T check_fn LATEST h name item w = Val (OK c, w') ->
+  order_kept h n v w'.
+Proof.
+  intros Hn Hf1 Hf2 Hm Hv HI HO H. unfold e_get_or_create_named_sub_element in H.
+  unfold wbind at 1 in H. rewrite Hm in H. unfold wbind at 1 in H. rewrite Hv in H.
+  unfold wbind at 1 in H. unfold get_node at 1 in H. rewrite Hn in H.
+  unfold wbind at 1 in H.
+  destruct (first_named_item T name item (n_content n) w) as [[[s|er] w1]| |] eqn:EG; try discriminate.
+  pose proof (ro_first_named_item T name item _ _ _ _ EG) as ->.
+  destruct s as [c0|].
+  - apply wret_inv in H as [_ ->]. exists n, items. auto.
+  - assert (H2 : e_create_named_sub_element T check_fn LATEST h name item w = Val (OK c, w')).
+    { unfold e_create_named_sub_element, wbind. rewrite Hm, Hv. exact H. }
+    destruct (create_named_order_inv h n m v name item w c w' items Hn Hf1 Hf2 Hm Hv HI HO H2) as (n' & items' & A & B & C & D).
+    exists n', items'. auto.
+Qed.
+
 End Named.
